@@ -84,6 +84,8 @@ func (o cOp) String() string {
 		return fmt.Sprintf("SETATTR fh=%x size=%d", trimBytes([]byte(o.H), 16), o.Size)
 	case "getattrh":
 		return fmt.Sprintf("GETATTR fh=%x", trimBytes([]byte(o.H), 16))
+	case "setattrhm":
+		return fmt.Sprintf("SETATTR fh=%x size=%d mtime=%d", trimBytes([]byte(o.H), 16), o.Size, o.Cnt)
 	}
 	return fmt.Sprintf("%s %s/%s", strings.ToUpper(o.Kind), d[o.Dir], o.Name)
 }
@@ -99,6 +101,11 @@ type cRes struct {
 	Names  string // sorted, comma separated
 	Plus   string // READDIRPLUS: what the entries say about the shared files' sizes and the names' handles
 	Ftype  nt.Ftype3
+	Mtime  uint32 // GETATTR through a handle: mtime seconds
+	// READDIRPLUS of D0/D1: the attributes listed for the entry "a"
+	AHas   bool
+	ASize  uint64
+	AMtime uint32
 }
 
 // cState is the sequential model: names -> handle per directory, and the shared files.
@@ -115,6 +122,9 @@ type cState struct {
 type cFile struct {
 	Size uint64
 	Data string
+	// Mtime: the modification time a client set explicitly (seconds), 0 when the reference does not know it
+	// (a WRITE or a size-only SETATTR may or may not touch it)
+	Mtime uint32
 }
 
 func (s cState) clone() cState {
@@ -157,7 +167,7 @@ func (s cState) key() string {
 		}
 		sort.Strings(hs)
 		for _, h := range hs {
-			fmt.Fprintf(&b, "|%x=%d:%x", h, s.HFiles[h].Size, Hash(s.HFiles[h].Data))
+			fmt.Fprintf(&b, "|%x=%d:%x:%d", h, s.HFiles[h].Size, Hash(s.HFiles[h].Data), s.HFiles[h].Mtime)
 		}
 	}
 	return b.String()
@@ -270,6 +280,14 @@ func cStep(s cState, o cOp, r cRes) (bool, cState) {
 	case "readdir":
 		return r.OK && r.Names == s.listing(o.Dir), s
 	case "readdirplus":
+		if o.Dir != 0 {
+			// the attributes listed for "a" are those of the file (one file per listing: see KF4)
+			if h, ok := s.Names[o.Dir]["a"]; ok {
+				if f, isFile := s.HFiles[h]; isFile && (!r.AHas || r.ASize != f.Size || (f.Mtime != 0 && r.AMtime != f.Mtime)) {
+					return false, s
+				}
+			}
+		}
 		return r.OK && r.Names == s.listing(o.Dir) && r.Plus == s.plus(o.Dir), s
 	case "getattr":
 		return r.OK && r.Size == s.Size[o.File], s
@@ -283,22 +301,26 @@ func cStep(s cState, o cOp, r cRes) (bool, cState) {
 		n := s.clone()
 		n.Size[o.File], n.Data[o.File] = nsize, ndata
 		return true, n
-	case "readh", "writeh", "setattrh", "getattrh":
+	case "readh", "writeh", "setattrh", "getattrh", "setattrhm":
 		f, live := s.HFiles[o.H]
 		if !live {
 			return !r.OK, s // the handle names no file any more: every use must fail
 		}
 		if o.Kind == "getattrh" {
-			return r.OK && r.Size == f.Size, s
+			return r.OK && r.Size == f.Size && (f.Mtime == 0 || r.Mtime == f.Mtime), s
 		}
 		k := o
-		k.Kind = strings.TrimSuffix(o.Kind, "h")
+		k.Kind = strings.TrimSuffix(strings.TrimSuffix(o.Kind, "m"), "h")
 		ok, nsize, ndata, changed := dataStep(f.Size, f.Data, k, r)
 		if !ok || !changed {
 			return ok, s
 		}
 		n := s.clone()
-		n.HFiles[o.H] = cFile{Size: nsize, Data: ndata}
+		nf := cFile{Size: nsize, Data: ndata} // mtime: unknown after a WRITE or a size-only SETATTR
+		if o.Kind == "setattrhm" {
+			nf.Mtime = o.Cnt // size and mtime change together
+		}
+		n.HFiles[o.H] = nf
 		return true, n
 	}
 	return false, s
@@ -527,9 +549,13 @@ func (w *cWorld) exec(api API, o cOp) cRes {
 	case "readdirplus":
 		r := api.NFSPROC3_READDIRPLUS(nt.READDIRPLUS3args{Dir: w.Dirs[o.Dir], Dircount: 65536, Maxcount: 65536})
 		var names, sizes, handles []string
+		var res cRes
 		for e := r.Resok.Reply.Entries; e != nil; e = e.Nextentry {
 			n := string(e.Name)
 			names = append(names, n)
+			if n == "a" && o.Dir != 0 && e.Name_attributes.Attributes_follow {
+				res.AHas, res.ASize, res.AMtime = true, uint64(e.Name_attributes.Attributes.Size), uint32(e.Name_attributes.Attributes.Mtime.Seconds)
+			}
 			switch {
 			case n == "f1":
 				St.ClassN("readdirplus_sizes_of_a_second_file_not_judged_KF4", 1)
@@ -542,7 +568,8 @@ func (w *cWorld) exec(api API, o cOp) cRes {
 		sort.Strings(names)
 		sort.Strings(sizes)
 		sort.Strings(handles)
-		return cRes{OK: r.Status == nt.NFS3_OK && r.Resok.Reply.Eof, Names: strings.Join(names, ","), Plus: strings.Join(append(sizes, handles...), ",")}
+		res.OK, res.Names, res.Plus = r.Status == nt.NFS3_OK && r.Resok.Reply.Eof, strings.Join(names, ","), strings.Join(append(sizes, handles...), ",")
+		return res
 	case "sweep":
 		// every extra file once, starting at a position of the operation's choosing (clients walk in different phases)
 		ok := true
@@ -571,7 +598,11 @@ func (w *cWorld) exec(api API, o cOp) cRes {
 		return cRes{OK: r.Status == nt.NFS3_OK, Size: uint64(r.Resok.Obj_wcc.After.Attributes.Size)}
 	case "getattrh":
 		r := api.NFSPROC3_GETATTR(nt.GETATTR3args{Object: nt.Nfs_fh3{Data: []byte(o.H)}})
-		return cRes{OK: r.Status == nt.NFS3_OK, Size: uint64(r.Resok.Obj_attributes.Size)}
+		return cRes{OK: r.Status == nt.NFS3_OK, Size: uint64(r.Resok.Obj_attributes.Size), Mtime: uint32(r.Resok.Obj_attributes.Mtime.Seconds)}
+	case "setattrhm":
+		r := api.NFSPROC3_SETATTR(nt.SETATTR3args{Object: nt.Nfs_fh3{Data: []byte(o.H)}, New_attributes: nt.Sattr3{Size: nt.Set_size3{Set_it: true, Size: nt.Size3(o.Size)},
+			Mtime: nt.Set_mtime{Set_it: nt.SET_TO_CLIENT_TIME, Mtime: nt.Nfstime3{Seconds: nt.Uint32(o.Cnt)}}}})
+		return cRes{OK: r.Status == nt.NFS3_OK, Size: uint64(r.Resok.Obj_wcc.After.Attributes.Size)}
 	case "readh":
 		r := api.NFSPROC3_READ(nt.READ3args{File: nt.Nfs_fh3{Data: []byte(o.H)}, Offset: nt.Offset3(o.Off), Count: nt.Count3(o.Cnt)})
 		return cRes{OK: r.Status == nt.NFS3_OK, Data: string(r.Resok.Data), Eof: r.Resok.Eof}
@@ -687,6 +718,9 @@ type pauseSpec struct {
 	Client  int
 	Hook    int
 	MaxWait time.Duration
+	// Disk: the client is held at its Hook-th access to the device (start of a read or write, data of a read
+	// fetched) instead of its Hook-th lock/commit/abort point - the places in the middle of a request
+	Disk bool
 }
 
 func goid() uint64 {
@@ -730,7 +764,21 @@ func (w *cWorld) runConcurrentFrom(progs [][]cOp, yieldSeed uint64, viaRPC bool,
 	reached := make(chan struct{}) // closed when the held client is at its pause point (or has finished)
 	var reachedOnce sync.Once
 	var finished int32
-	if pause != nil {
+	var dp *DiskPause
+	if pause != nil && pause.Disk {
+		dp = NewDiskPause(pause.Hook, pause.MaxWait)
+		w.S.D.SetHook(dp.Hook)
+		defer w.S.D.SetHook(nil)
+		go func() {
+			select {
+			case <-dp.Reached():
+				run.Paused = dp.Paused.Load()
+				reachedOnce.Do(func() { close(reached) })
+			case <-othersDone:
+			}
+		}()
+		go func() { <-othersDone; dp.Release() }()
+	} else if pause != nil {
 		var hooks [8]int32
 		var once sync.Once
 		mon.SetYield(func(point string) {
@@ -778,6 +826,10 @@ func (w *cWorld) runConcurrentFrom(progs [][]cOp, yieldSeed uint64, viaRPC bool,
 			}
 			go func(c int, api API) {
 				clients.Store(goid(), c)
+				if dp != nil && c == pause.Client {
+					dp.Enter()
+					defer dp.Reach()
+				}
 				defer wg.Done()
 				defer func() {
 					if pause != nil && c != pause.Client {
@@ -801,7 +853,7 @@ func (w *cWorld) runConcurrentFrom(progs [][]cOp, yieldSeed uint64, viaRPC bool,
 				}()
 				cur := "" // the handle this client last got from CREATE or LOOKUP of a file name
 				for _, op := range progs[c] {
-					if strings.HasSuffix(op.Kind, "h") && op.H == "" {
+					if (strings.HasSuffix(op.Kind, "h") || op.Kind == "setattrhm") && op.H == "" {
 						if cur == "" {
 							continue
 						}
@@ -881,7 +933,7 @@ func conflicting(ops []porcupine.Operation) int {
 		switch o.Kind {
 		case "write", "read", "setattr", "getattr":
 			return []string{fmt.Sprintf("f%d", o.File)}
-		case "writeh", "readh", "setattrh", "getattrh":
+		case "writeh", "readh", "setattrh", "getattrh", "setattrhm":
 			return []string{"h:" + o.H}
 		case "rename":
 			return []string{fmt.Sprintf("%d/%s", o.Dir, o.Name), fmt.Sprintf("%d/%s", o.Dir2, o.Name2)}
